@@ -1,6 +1,32 @@
-"""small spec-level uninterpreted functions shared by contracts"""
-from .core import Unsupported
+"""small spec-level hooks shared by contracts"""
+from .core import Unsupported, cur
+
+
+class SgnVal:
+    """`x.sgn0` of an abstract field element: an opaque bit.  Comparing two of them forks the path and records
+    (x, y, equal?) in path.ghost['sgn0-tests'] so that a contract can relate the final value to them."""
+
+    def __init__(self, x):
+        self.x = x
+
+    def _cmp(self, o, want_equal):
+        if not isinstance(o, SgnVal):
+            return NotImplemented
+        p = cur()
+        k = p.choose(2, "sgn0 equal?")
+        equal = (k == 0)
+        p.sig[-1] = "sgn0(" + ("=" if equal else "!=") + ")"
+        p.ghost.setdefault("sgn0-tests", []).append((self.x, o.x, equal))
+        return equal if want_equal else (not equal)
+
+    def __eq__(self, o):
+        return self._cmp(o, True)
+
+    def __ne__(self, o):
+        return self._cmp(o, False)
+
+    __hash__ = None
 
 
 def fld_sgn0(x):
-    raise Unsupported("sgn0 of an abstract field element outside a contract that models it")
+    return SgnVal(x)
